@@ -62,9 +62,12 @@ def gen_case(rng, backend):
         rows = []
         for i in ids:
             arr = rng.choice([None, [], ["u"], ["u", "v"], ["v", "w"], ["w"], ["u", "u"]])
-            rows.append({"unique_id": i, "a": rng.choice(dom), "b": rng.choice(dom), "c": rng.choice(dom), "arr": arr})
+            arr2 = rng.choice([None, [], ["p"], ["p", "q"], ["q", "p"], ["q", "r", "p"], ["r"]])
+            rows.append({"unique_id": i, "a": rng.choice(dom), "b": rng.choice(dom), "c": rng.choice(dom), "arr": arr, "arr2": arr2})
         if not any(r["arr"] for r in rows):
             rows[0]["arr"] = ["u", "w"]
+        if not any(r["arr2"] for r in rows):
+            rows[0]["arr2"] = ["q", "p"]
         if all(r["a"] is None for r in rows):
             rows[0]["a"] = "x"
         tables.append(rows)
@@ -75,8 +78,15 @@ def gen_case(rng, backend):
         if backend == "duckdb":
             kind = rng.choice(["plain", "plain", "salted", "exploding"])
         if kind == "exploding":
-            txt = rng.choice(["l.arr = r.arr", "l.arr = r.arr AND l.a = r.a", "l.arr = r.arr OR l.b = r.b"])
-            rules.append({"blocking_rule": txt, "arrays_to_explode": ["arr"]})
+            if rng.random() < 0.35:
+                # two exploded arrays: the exploded table must hold the cross product of elements
+                txt = rng.choice(["l.arr = r.arr AND l.arr2 = r.arr2", "l.arr2 = r.arr2 AND l.arr = r.arr AND l.b = r.b"])
+                rules.append({"blocking_rule": txt, "arrays_to_explode": rng.choice([["arr", "arr2"], ["arr2", "arr"]])})
+            elif rng.random() < 0.3:
+                rules.append({"blocking_rule": "l.arr2 = r.arr2", "arrays_to_explode": ["arr2"]})
+            else:
+                txt = rng.choice(["l.arr = r.arr", "l.arr = r.arr AND l.a = r.a", "l.arr = r.arr OR l.b = r.b"])
+                rules.append({"blocking_rule": txt, "arrays_to_explode": ["arr"]})
         elif kind == "salted":
             rules.append({"blocking_rule": gen_rule(rng), "salting_partitions": rng.choice([2, 3, 5])})
         else:
@@ -101,12 +111,16 @@ def outcome_matrices(case):
     for col in ("a", "b", "c"):
         d[col] = d[col].astype("string")
     con.register("d0", d)
-    con.execute("create table t as select __i, source_dataset, unique_id, cast(a as varchar) a, cast(b as varchar) b, cast(c as varchar) c, cast(arr as varchar[]) arr from d0")
+    con.execute("create table t as select __i, source_dataset, unique_id, cast(a as varchar) a, cast(b as varchar) b, cast(c as varchar) c, cast(arr as varchar[]) arr, cast(arr2 as varchar[]) arr2 from d0")
     mats = []
     for r in case["rules"]:
         sql = rule_sql(r)
         if isinstance(r, dict) and "arrays_to_explode" in r:
-            q = f"""with u as (select __i, source_dataset, unique_id, a, b, c, unnest(arr) as arr from t)
+            src = "t"
+            for col in r["arrays_to_explode"]:
+                other = ", ".join(x for x in ("__i", "source_dataset", "unique_id", "a", "b", "c", "arr", "arr2") if x != col)
+                src = f"(select {other}, unnest({col}) as {col} from {src})"
+            q = f"""with u as (select * from {src})
                     select l.__i, r.__i, max(case when ({sql}) then 1 else 0 end) from u l cross join u r group by 1,2"""
             res = {(a, b): v for a, b, v in con.execute(q).fetchall()}
             m = [res.get((i, j), 0) for i in range(n) for j in range(n)]
@@ -141,7 +155,7 @@ def run_impl(case, entry="predict"):
         for col in ("a", "b", "c"):
             d[col] = d[col].astype("string")
         if case["backend"] == "sqlite":
-            d = d.drop(columns=["arr"])
+            d = d.drop(columns=["arr", "arr2"])
         tabs.append(d)
     s = SettingsCreator(link_type=case["link_type"], comparisons=[cl.ExactMatch("a")],
                         blocking_rules_to_generate_predictions=case["rules"],
@@ -249,7 +263,7 @@ def features_of(case):
     f["has_exploding"] = "exploding" in kinds
     # a plain/salted rule mentioning the exploded column listed before an exploding rule (7.13)
     f["array_rule_before_exploding"] = any(
-        kinds[j] != "exploding" and "arr" in rule_sql(case["rules"][j])
+        kinds[j] != "exploding" and "arr" in rule_sql(case["rules"][j])  # matches arr and arr2
         for i, k in enumerate(kinds) if k == "exploding" for j in range(i))
     import sqlglot
     import sqlglot.expressions as E
@@ -360,7 +374,7 @@ def known_witnesses(ctx: Ctx):
     # KF-C01-exploding-preceded (DESIGN 7.13)
     arrs = [["a", "b"], ["b", "c"], ["a", "b"]]
     case = {"link_type": "dedupe_only", "names": ["ta"], "backend": "duckdb",
-            "tables": [[{"unique_id": i + 1, "a": None, "b": None, "c": None, "arr": arrs[i]} for i in range(3)]],
+            "tables": [[{"unique_id": i + 1, "a": None, "b": None, "c": None, "arr": arrs[i], "arr2": ["p"]} for i in range(3)]],
             "rules": ["l.arr = r.arr", {"blocking_rule": "l.arr = r.arr", "arrays_to_explode": ["arr"]}]}
     rows, mats = outcome_matrices(case)
     impl = run_impl(case, "predict")
@@ -412,47 +426,47 @@ def report_skeleton_failures(ctx: Ctx, failing, cex):
     broken obligation with no-failing-input-found."""
     import splink.comparison_library as cl
     from splink import SettingsCreator
-    seen = set()
+    groups: dict[str, list] = {}
     for d, cx in zip(failing, cex + [None] * len(failing)):
         feats = {"skeleton": True, "kinds_set": sorted(set(k[0] for k in d["kinds"])),
                  "salted_top_level_or": any(k.startswith("S") and s == "or" for k, s in zip(d["kinds"], d["shapes"]))}
-        found = False
-        replay = {"obligation": {k: d[k] for k in ("kinds", "shapes", "link_type", "sk")}, "counterexample_valuation": cx}
-        if cx is not None:
-            try:
-                lt, l, r, rules = realise(d, cx)
-                # many rows so that every salt partition is hit with overwhelming probability
-                reps = 24
-                if lt == "dedupe_only":
-                    tabs = [pd.DataFrame([dict(l, unique_id=2 * i + 1) for i in range(reps)] + [dict(r, unique_id=2 * i + 2) for i in range(reps)])]
-                    names = None
-                else:
-                    tabs = [pd.DataFrame([dict(l, unique_id=i) for i in range(reps)]), pd.DataFrame([dict(r, unique_id=i) for i in range(reps)])]
-                    names = ["ta", "tb"]
-                s = SettingsCreator(link_type=lt, comparisons=[cl.ExactMatch("p0")], blocking_rules_to_generate_predictions=rules)
-                lk = su.linker(tabs, s, "duckdb", aliases=names)
-                out = su.records(lk.inference.predict())
-                pairs = [(x.get("source_dataset_l"), x["unique_id_l"], x.get("source_dataset_r"), x["unique_id_r"]) for x in out]
-                dup = len(pairs) - len(set(pairs))
-                replay.update({"tables": [t.to_dict("records") for t in tabs], "rules": rules, "link_type": lt,
-                               "rows_returned": len(pairs), "distinct_pairs": len(set(pairs))})
-                # specification on this input: all l-row/r-row pairs behave identically
-                from harness.c01_x import outcome_matrices  # noqa
-                if dup > 0:
-                    found = True
-                    replay["failure"] = f"{dup} duplicate pairs in predict() output"
-                else:
-                    # compare with python spec through the generic path
-                    case = {"link_type": lt, "names": names or ["ta"], "backend": "duckdb", "rules": rules,
-                            "tables": [[{**row, "a": None, "b": None, "c": None, "arr": None} for row in t.to_dict("records")] for t in tabs]}
-                    replay["note"] = "no duplicate pairs on the realised input"
-            except Exception as e:  # realisation failed: still a broken obligation
-                replay["realise_error"] = repr(e)
-        key = json.dumps(feats, sort_keys=True) + str(found)
-        if key in seen:
-            continue
-        seen.add(key)
-        ctx.violation(f"skeleton obligation fails for kinds={d['kinds']} shapes={d['shapes']} link_type={d['link_type']}",
+        groups.setdefault(json.dumps(feats, sort_keys=True), []).append((d, cx, feats))
+    for key, members in groups.items():
+        best = None
+        for d, cx, feats in members[:4]:
+            found = False
+            replay = {"obligation": {k: d[k] for k in ("kinds", "shapes", "link_type", "sk")}, "counterexample_valuation": cx,
+                      "failed_obligations_in_group": len(members)}
+            if cx is not None:
+                try:
+                    lt, l, r, rules = realise(d, cx)
+                    reps = 24  # many rows so that every salt partition is hit with overwhelming probability
+                    if lt == "dedupe_only":
+                        tabs = [pd.DataFrame([dict(l, unique_id=2 * i + 1) for i in range(reps)] + [dict(r, unique_id=2 * i + 2) for i in range(reps)])]
+                        names = None
+                    else:
+                        tabs = [pd.DataFrame([dict(l, unique_id=i) for i in range(reps)]), pd.DataFrame([dict(r, unique_id=i) for i in range(reps)])]
+                        names = ["ta", "tb"]
+                    s = SettingsCreator(link_type=lt, comparisons=[cl.ExactMatch("p0")], blocking_rules_to_generate_predictions=rules)
+                    lk = su.linker(tabs, s, "duckdb", aliases=names)
+                    out = su.records(lk.inference.predict())
+                    pairs = [(x.get("source_dataset_l"), x["unique_id_l"], x.get("source_dataset_r"), x["unique_id_r"]) for x in out]
+                    dup = len(pairs) - len(set(pairs))
+                    replay.update({"tables": [t.to_dict("records") for t in tabs], "rules": rules, "link_type": lt,
+                                   "rows_returned": len(pairs), "distinct_pairs": len(set(pairs))})
+                    if dup > 0:
+                        found = True
+                        replay["failure"] = f"{dup} duplicate pairs in predict() output"
+                    else:
+                        replay["note"] = "no duplicate pairs on the realised input"
+                except Exception as e:  # realisation failed: still a broken obligation
+                    replay["realise_error"] = repr(e)
+            if best is None or found:
+                best = (d, replay, feats, found)
+            if found:
+                break
+        d, replay, feats, found = best
+        ctx.violation(f"skeleton obligation fails for kinds={d['kinds']} shapes={d['shapes']} link_type={d['link_type']} (+{len(members) - 1} more of this class)",
                       replay, feats, found_input=found)
     for u in getattr(ctx, "untranslatable", [])[:3]:
         ctx.violation("blocking SQL no longer matches any shape the translator understands: " + u["why"],
